@@ -736,6 +736,33 @@ class Sym:
     def uniform_(self, *a, **k):
         raise NotModelled("uniform_ on symbolic tensor")
 
+    def _inplace_unary(self, name):
+        """x.exp_() etc.: the out-of-place handler's result written through the view (logged as a mutation)"""
+        explore.log_write((name + "_", id(_root(self.a))))
+        self.a[...] = HANDLERS[name](self).a
+        return self
+
+    def exp_(self):
+        return self._inplace_unary("exp")
+
+    def log_(self):
+        return self._inplace_unary("log")
+
+    def neg_(self):
+        return self._inplace_unary("neg")
+
+    def abs_(self):
+        return self._inplace_unary("abs")
+
+    def sqrt_(self):
+        return self._inplace_unary("sqrt")
+
+    def sigmoid_(self):
+        return self._inplace_unary("sigmoid")
+
+    def tanh_(self):
+        return self._inplace_unary("tanh")
+
     add = __add__
     sub = __sub__
     mul = __mul__
